@@ -2568,6 +2568,10 @@ static iwrc _jbl_target_apply_patch(struct jbl_node *target, const struct jbl_pa
   // The whole document: rfc6901 "" (no segments) as well as the historical "/"
   bool oproot = ex->path->cnt == 0 || (ex->path->cnt == 1 && *ex->path->n[0] == '\0');
 
+  if (!ex->from && ((op == JBP_MOVE) || (op == JBP_COPY) || (op == JBP_SWAP))) {
+    return JBL_ERROR_PATCH_INVALID; // These operations need a `from` location
+  }
+
   if (op == JBP_TEST) {
     iwrc rc = 0;
     if (!value) {
@@ -2589,7 +2593,7 @@ static iwrc _jbl_target_apply_patch(struct jbl_node *target, const struct jbl_pa
       }
       memmove(target, value, sizeof(*value));
     } else if ((op == JBP_COPY) || (op == JBP_MOVE)) { // The value at `from` becomes the whole document
-      value = _jbl_node_find(target, ex->from, 0, ex->from ? ex->from->cnt : 0);
+      value = _jbl_node_find(target, ex->from, 0, ex->from->cnt);
       if (!value) {
         return JBL_ERROR_PATH_NOTFOUND;
       }
